@@ -1,8 +1,93 @@
 package main
 
+import (
+	"go/ast"
+)
+
 // regenerated facts of the "receive" family (C22 C23 C24 C25 C26)
 
 func init() { families = append(families, factsReceive) }
 
+// stmtSeq lists, in source order and only at the top level of the function body, the statements
+// that matter for the write gate: "Start" (a statement containing a call of .Start), "deferDone"
+// (a defer of .Done), "checkErr" (the first `if err != nil` that returns).
+func gateSkeleton(fd *ast.FuncDecl) []string {
+	var seq []string
+	if fd == nil || fd.Body == nil {
+		return seq
+	}
+	for _, st := range fd.Body.List {
+		switch s := st.(type) {
+		case *ast.DeferStmt:
+			if sel, ok := s.Call.Fun.(*ast.SelectorExpr); ok && sel.Sel.Name == "Done" && text(sel.X) == "writeGate" {
+				seq = append(seq, "deferDone")
+			}
+		case *ast.IfStmt:
+			if text(s.Cond) == "err != nil" && len(seq) > 0 && !contains(seq, "checkErr") {
+				// the error check that follows Start: must end in a return
+				if n := len(s.Body.List); n > 0 {
+					if _, ok := s.Body.List[n-1].(*ast.ReturnStmt); ok {
+						seq = append(seq, "checkErr")
+					}
+				}
+			}
+		default:
+			if len(callSeq(st, "writeGate.Start")) > 0 {
+				seq = append(seq, "Start")
+			}
+		}
+	}
+	return seq
+}
+
+func contains(xs []string, x string) bool {
+	for _, y := range xs {
+		if y == x {
+			return true
+		}
+	}
+	return false
+}
+
 func factsReceive() {
+	f := parse("pkg/receive/handler.go")
+
+	// C23: which variable fanoutForward passes as the threshold of the per-series replication errors
+	arg := "unknown"
+	if cs := calls(body(fn(f, "Handler", "fanoutForward")), "newReplicationErrors"); len(cs) == 1 && len(cs[0].Args) == 2 {
+		arg = text(cs[0].Args[0])
+	}
+	emitStr("replicationErrorsThresholdArg", "pkg/receive/handler.go fanoutForward: first argument of newReplicationErrors", arg)
+
+	// C22: the quorum expression and the two thresholds
+	wq := fn(f, "Handler", "writeQuorum")
+	var rets []string
+	if wq != nil && wq.Body != nil {
+		ast.Inspect(wq.Body, func(n ast.Node) bool {
+			if r, ok := n.(*ast.ReturnStmt); ok && len(r.Results) == 1 {
+				rets = append(rets, text(r.Results[0]))
+			}
+			return true
+		})
+	}
+	emitList("writeQuorumReturns", "pkg/receive/handler.go writeQuorum: returned expressions, in source order", rets)
+	emitStr("writeQuorumSpecialCase", "pkg/receive/handler.go writeQuorum: the condition of the special case", firstIfCond(body(wq), "ReplicationFactor"))
+	ff := fn(f, "Handler", "fanoutForward")
+	ft := "unknown"
+	if ff != nil && ff.Body != nil {
+		ast.Inspect(ff.Body, func(n ast.Node) bool {
+			if a, ok := n.(*ast.AssignStmt); ok && len(a.Lhs) == 1 && len(a.Rhs) == 1 && text(a.Lhs[0]) == "failureThreshold" {
+				ft = text(a.Rhs[0])
+			}
+			return true
+		})
+	}
+	emitStr("failureThresholdExpr", "pkg/receive/handler.go fanoutForward: definition of failureThreshold", ft)
+	emitStr("canReturnEarlyCond", "pkg/receive/handler.go canReturnEarly: the test that keeps the loop waiting",
+		firstIfCond(body(fn(f, "", "canReturnEarly")), "successThreshold"))
+
+	// C24: order of Start / deferred Done / error check in the two HTTP entry points
+	emitList("receiveHTTPGate", "pkg/receive/handler.go receiveHTTP: gate skeleton", gateSkeleton(fn(f, "Handler", "receiveHTTP")))
+	fo := parse("pkg/receive/handler_otlp.go")
+	emitList("receiveOTLPHTTPGate", "pkg/receive/handler_otlp.go receiveOTLPHTTP: gate skeleton", gateSkeleton(fn(fo, "Handler", "receiveOTLPHTTP")))
 }
